@@ -132,6 +132,13 @@ impl Service for TestSvc {
                 Reply::Held(k)
             }
             Request::Large(data) => {
+                // The payload lives in tracked memory while it is processed.
+                let held = Layout::from_size_align(data.len().max(1), 8).unwrap();
+                let h = unsafe { alloc.alloc(held) };
+                if h.is_null() {
+                    simkit::shim::child::abort();
+                }
+                unsafe { alloc.dealloc(h, held) };
                 let sum: u64 = data.iter().map(|b| *b as u64).sum();
                 let back: Vec<u8> = data.iter().map(|b| b ^ 0x5a).collect();
                 Reply::Echo(sum, back)
@@ -145,6 +152,21 @@ impl Service for TestSvc {
 pub(crate) fn child_main(_args: Vec<OsString>) {
     let alloc = Arc::new(Alloc::new(usize::MAX));
     CHILD_ALLOC.with(|a| *a.borrow_mut() = Some(alloc.clone()));
+    // The framing asks this process's own allocator whether the frame fits.
+    let probe_alloc = alloc.clone();
+    simkit::shim::child::set_alloc_probe(Some(Box::new(move |n| {
+        let layout = match Layout::from_size_align(n.max(1), 8) {
+            Ok(l) => l,
+            Err(_) => return false,
+        };
+        let p = unsafe { probe_alloc.alloc(layout) };
+        if p.is_null() {
+            false
+        } else {
+            unsafe { probe_alloc.dealloc(p, layout) };
+            true
+        }
+    })));
     struct Clear;
     impl Drop for Clear {
         fn drop(&mut self) {
@@ -311,6 +333,10 @@ fn expect_of(op: &Op, knobs: &Knobs) -> Expect {
         }
         Op::AllocBeyond => Expect::Crashed,
         Op::Exit(_) => Expect::Crashed,
+        // A payload that does not fit into the child's memory next to the 64
+        // bytes every request uses exhausts the limit: while the request is read
+        // (frame buffer), while it is processed, or while the reply is built.
+        Op::Large(n, _) if *n as u64 + 64 > knobs.mem_limit => Expect::Crashed,
         Op::Large(n, seed) => {
             let data = payload(*n, *seed);
             let sum: u64 = data.iter().map(|b| *b as u64).sum();
@@ -345,11 +371,11 @@ fn classify(r: Result<rink_sandbox::Response<Reply>, Error>) -> Obs {
     }
 }
 
-/// `raises`: for every injected ctrl-c, the request indices that may
+/// `raises`: for every injected ctrl-c, the earliest request that may
 /// legitimately answer `Interrupted` because of it (async-ctrlc latches: an
-/// interrupt while idle goes to the next request; one raised while request i
-/// is in flight goes to i, or to i+1 if the parent had already read i's
-/// reply). Each raise excuses at most one request.
+/// interrupt while idle goes to the next request that listens; one raised
+/// while request i is in flight goes to i, or to a later one if the parent
+/// had already stopped listening). Each raise excuses at most one request.
 fn oracle(sc: &Scenario, recs: &[Record], raises: &[Vec<usize>], end: &RunEnd) -> Option<Violation> {
     let knobs = &sc.knobs;
     let mut raise_used = vec![false; raises.len()];
@@ -387,7 +413,13 @@ fn oracle(sc: &Scenario, recs: &[Record], raises: &[Vec<usize>], end: &RunEnd) -
             }
         };
         if *obs == Obs::Interrupted {
-            let slot = (0..raises.len()).find(|k| !raise_used[*k] && raises[*k].contains(&i));
+            // A latched interrupt is consumed by the first request at or after the
+            // raise that actually listens for it; a request whose write to a dead
+            // child fails is answered without listening, so the interrupt can
+            // travel further than the next request.
+            let slot = (0..raises.len()).find(|k| {
+                !raise_used[*k] && raises[*k].iter().min().map(|m| i >= *m).unwrap_or(false)
+            });
             if let Some(k) = slot {
                 // Injected ctrl-c: this request, and only it, may be interrupted.
                 raise_used[k] = true;
@@ -596,7 +628,7 @@ impl Harness for C18 {
         let timeout_ns = *rng.pick(&TIMEOUTS_NS);
         let mut knobs = Knobs::default_for(timeout_ns);
         knobs.pipe_cap = *rng.pick(&[512usize, 4096, 65536, 65536]);
-        knobs.mem_limit = *rng.pick(&[1000u64, 1 << 20]);
+        knobs.mem_limit = *rng.pick(&[1000u64, 100_000, 1 << 20, 1 << 20]);
         knobs.policy = match rng.below(8) {
             0 | 1 => Policy::Sticky(8),
             2 => Policy::Sticky(3),
@@ -1041,6 +1073,7 @@ impl Harness for C18 {
             "ctrlc_in_flight",
             "slow_pipe_transfer",
             "timeout_mid_frame_under_slow_pipe",
+            "child_out_of_memory_in_framing",
         ]
     }
 }
